@@ -165,3 +165,6 @@ func (ds *AnySource) VerifRunDoneState(timeout time.Duration) (idle bool, done i
 	}
 	return idle, done
 }
+
+// VerifActiveSource is the source the RPC layer last selected in Start.
+func (s *SourceControl) VerifActiveSource() DataSource { return s.ActiveSource }
